@@ -1,7 +1,7 @@
 /-!
 # Deep embedding of the lookup path of the tables (`internal/xsync`): abstract syntax
 
-`tools/go2deep -table` prints the `go/ast` of `(*MapOf[K,V]).Load` as a term of these types on every run
+`tools/go2deep -table` prints the `go/ast` of `(*MapOf[K,V]).Load` and `(*Map).Load` as terms of these types on every run
 (`Generated/TableLoad.lean`).  One constructor per Go syntactic form of the subset; identifiers are resolved by the
 printer to local variables (`var`), package-level constants (`const`), leaf functions (`call1`), fields of the
 receiver (`recvField`); anything else makes the printer fail.  The meaning of the syntax is `Deep.T.exec`
@@ -10,7 +10,7 @@ receiver (`recvField`); anything else makes the printer fail.  The meaning of th
 namespace Deep.T
 
 inductive BOp where
-  | and | xor | sub | ne | eq | land
+  | and | xor | sub | ne | eq | land | lt
   deriving DecidableEq, Repr
 
 inductive Ty where
@@ -25,9 +25,12 @@ inductive Expr where
   /-- package-level constant of `internal/xsync` -/
   | const (c : String)
   | bin (op : BOp) (a b : Expr)
+  | not (e : Expr)
   /-- leaf function of `internal/xsync` (one argument) -/
   | call1 (f : String) (a : Expr)
-  /-- `m.hasher(key, seed)` -/
+  /-- leaf function of three arguments (`topHashMatch`) -/
+  | call3 (f : String) (a b c : Expr)
+  /-- `m.hasher(key, seed)` / `hashString(key, seed)` -/
   | hash (k seed : Expr)
   | len (e : Expr)
   /-- conversion `T(e)` -/
@@ -59,6 +62,14 @@ inductive Stmt where
   | forever (body : Stmt)
   /-- `for c { … }` -/
   | while (c : Expr) (body : Stmt)
+  /-- `for init; c; post { … }` -/
+  | for3 (init : Stmt) (c : Expr) (post body : Stmt)
+  | continue
+  /-- `x++` -/
+  | incr (x : String)
+  /-- `L: s` where `s` is the labelled statement followed by the rest of its block (`goto L` re-enters it) -/
+  | labeled (l : String) (s : Stmt)
+  | goto (l : String)
   /-- `{ … }`: names declared inside go out of scope at the end -/
   | block (s : Stmt)
   deriving Repr
